@@ -18,10 +18,10 @@ func init() {
 		ID: "C20",
 		Rule: "plan = histories of data commands of every family, SELECT, SWAPDB, FLUSHDB, FLUSHALL on 2-3 TCP connections plus the embedded caller over database indices {0,1,2,9,10,15,123}; half of the runs end with an AOF restart (clean or kill) and a per-database comparison; " +
 			"non-trivial = at least two databases held data at some point; distinct = hash of the (command name, database) sequence",
-		Gen:  genC20,
-		Run:  runC20,
-		Real: []string{"connection table (SELECT/SWAPDB/handleCommand context)", "keyspace per-database maps, volatile index and heaps", "Flush", "AOF SELECT markers and restore", "embedded SelectDB"},
-		Stub: []string{"TCP sockets", "durability (kill = everything handed to the OS survives)"},
+		Gen:         genC20,
+		Run:         runC20,
+		Real:        []string{"connection table (SELECT/SWAPDB/handleCommand context)", "keyspace per-database maps, volatile index and heaps", "Flush", "AOF SELECT markers and restore", "embedded SelectDB"},
+		Stub:        []string{"TCP sockets", "durability (kill = everything handed to the OS survives)"},
 		Assumptions: []string{"SWAPDB is judged by what each client connection reads afterwards (the implementation may swap the connections' indices instead of the data)"},
 	})
 }
